@@ -31,7 +31,7 @@ def run(tier):
     js = [("rt-int:%s" % s, F.job_rt_int, {"sign": s}) for s in ("pos", "neg", "min")]
     js += [("rt-offset:spec=%s" % spec, F.job_rt_offset, {"fmode": fm, "pmode": pm}) for spec, fm, pm in (("%z", "", ""), ("%Ez", ":", ":"), ("%E*z", ":*", ":"))]
     js += [("rt-subsec", F.job_rt_subsec, {})]
-    js += [("driver-parse:%s" % s, D.job_parse, {"shape": s}) for s in ("ymdhms", "hms-z", "s-pos", "s-neg", "ES")]
+    js += [("driver-parse:%s" % s, D.job_parse, {"shape": s}) for s in ("ymdhms", "hms-z", "s-pos", "s-neg", "ES", "max-z", "max-local", "min-z", "min-local")]
     js += [("driver-format:%r" % p, D.job_format, {"fmt": p, "year_digits": 4}) for p in ("%Y-%m-%d %H:%M:%S", "%H:%M:%S %z", "%H:%M:%E*S")]
     results = common.run_jobs(js)
     rep.add_jobs(results)
@@ -42,7 +42,8 @@ def run(tier):
             if w: rep.violation(r["name"] + ":" + w[:100], w + "  [%s: %s]" % (r["name"], fobj["desc"]), {"job": r["name"], "model": fobj["model"]})
             else: rep.spurious.append({"job": r["name"], "obligation": fobj["desc"], "model": fobj["model"]})
     rep.bounds = ["field round trips: every int64 value, every offset within +-24h, every femtosecond value (no bound)",
-                  "drivers: the formats '%Y-%m-%d %H:%M:%S', '%H:%M:%S %z', '%s', '%H:%M:%E*S' with symbolic digits / fields (4-digit years in the composed formats)"]
+                  "drivers: the formats '%Y-%m-%d %H:%M:%S', '%H:%M:%S %z', '%s', '%H:%M:%E*S' with symbolic digits / fields (4-digit years in the composed formats)",
+                  "range ends: the texts of the last days before time_point max() and the first days after min() (years 292277026596 / -292277022657 literal, day, time and offset digits symbolic), read with an explicit offset or in a zone of any fixed offset: the text format() produces for t near the limits parses back to t, and nothing beyond the limits is accepted"]
     rep.outside = ["%U/%W with %u/%w and locale names (strftime/strptime)", "years with more than 4 digits inside multi-field formats (the year field alone is covered for all int64)"]
     rep.assumptions = ["time_zone::lookup is a contract (fixed-offset zone) inside the drivers; C01-C03 cover the zone conversions themselves",
                        "round trip = (format renders the documented text) + (parse returns the instant the documented text denotes) + (the field printers/scanners invert each other for all values)"]
